@@ -67,35 +67,48 @@ PlainEff == Eff(EmptyStyle)
 NoHeight == "0"          \* Row::get_height of a row without a height
 StdWidth == "8.38"       \* Column::get_width of a column without a width
 
+NoDescent == "0"         \* Row::get_descent of a row without dyDescent
+RowDimmed(y) == y.ht # NoHeight \/ y.hid \/ y.ch \/ y.tb \/ y.dd # NoDescent
+ColDimmed(y) == y.w # StdWidth \/ y.hid \/ y.bf
 (* what the public getters show of a book: carriers whose formatting or dimension is not the default *)
 ProjBook(B) ==
   [cells |-> {[r |-> x.r, c |-> x.c, sty |-> Eff(x.sty)] : x \in {y \in B.cells : Eff(y.sty) # PlainEff}},
-   rows  |-> {[r |-> x.r, ht |-> x.ht, hid |-> x.hid, sty |-> Eff(x.sty)] :
-                 x \in {y \in B.rows : y.ht # NoHeight \/ y.hid \/ Eff(y.sty) # PlainEff}},
-   cols  |-> {[c |-> x.c, w |-> x.w, hid |-> x.hid, sty |-> Eff(x.sty)] :
-                 x \in {y \in B.cols : y.w # StdWidth \/ y.hid \/ Eff(y.sty) # PlainEff}}]
-DimsOf(B) == [rows |-> {[r |-> x.r, ht |-> x.ht, hid |-> x.hid] : x \in {y \in B.rows : y.ht # NoHeight \/ y.hid}},
-              cols |-> {[c |-> x.c, w |-> x.w, hid |-> x.hid] : x \in {y \in B.cols : y.w # StdWidth \/ y.hid}}]
+   rows  |-> {[r |-> x.r, ht |-> x.ht, hid |-> x.hid, ch |-> x.ch, tb |-> x.tb, dd |-> x.dd, sty |-> Eff(x.sty)] :
+                 x \in {y \in B.rows : RowDimmed(y) \/ Eff(y.sty) # PlainEff}},
+   cols  |-> {[c |-> x.c, w |-> x.w, hid |-> x.hid, bf |-> x.bf, sty |-> Eff(x.sty)] :
+                 x \in {y \in B.cols : ColDimmed(y) \/ Eff(y.sty) # PlainEff}}]
+(* every component of a dimension on its own: height, customHeight, hidden, thickBot, dyDescent / width, hidden, bestFit *)
+DimsOf(B) == [rows |-> {[r |-> x.r, ht |-> x.ht, hid |-> x.hid, ch |-> x.ch, tb |-> x.tb, dd |-> x.dd] :
+                           x \in {y \in B.rows : RowDimmed(y)}},
+              cols |-> {[c |-> x.c, w |-> x.w, hid |-> x.hid, bf |-> x.bf] : x \in {y \in B.cols : ColDimmed(y)}}]
 
 EmptyBook == [cells |-> {}, rows |-> {}, cols |-> {}]
 
 (* ---- assignments (public setters) ------------------------------------------ *)
 SetCellB(B, r, c, s) == [B EXCEPT !.cells = {x \in @ : ~(x.r = r /\ x.c = c)} \cup {[r |-> r, c |-> c, sty |-> s]}]
-(* a height "0" leaves the height of the row as it is *)
-SetRowB(B, r, ht, hid, s) ==
+(* d = [ht, ch, ord, hid, tb, dd]: the row setters.  A height "0" means set_height is not called (the height   *)
+(* stays); set_height switches customHeight on, set_custom_height(ch) is called before it (ord = "ch") or after *)
+(* it (ord = "hc"); a descent "0" means set_descent is not called.                                              *)
+SetRowB(B, r, d, s) ==
   LET old == {x \in B.rows : x.r = r}
-      h   == IF ht # NoHeight \/ old = {} THEN ht ELSE (CHOOSE x \in old : TRUE).ht
-  IN [B EXCEPT !.rows = (@ \ old) \cup {[r |-> r, ht |-> h, hid |-> hid, sty |-> s]}]
-SetColB(B, c, w, hid, s) ==
-  [B EXCEPT !.cols = {x \in @ : x.c # c} \cup {[c |-> c, w |-> w, hid |-> hid, sty |-> s]}]
+      o   == IF old = {} THEN [ht |-> NoHeight, dd |-> NoDescent] ELSE CHOOSE x \in old : TRUE
+      h   == IF d.ht # NoHeight THEN d.ht ELSE o.ht
+      ch  == IF d.ord = "ch" /\ d.ht # NoHeight THEN TRUE ELSE d.ch
+      dd  == IF d.dd # NoDescent THEN d.dd ELSE o.dd
+  IN [B EXCEPT !.rows = (@ \ old) \cup {[r |-> r, ht |-> h, hid |-> d.hid, ch |-> ch, tb |-> d.tb, dd |-> dd, sty |-> s]}]
+PlainRowDim == [ht |-> NoHeight, ch |-> FALSE, ord |-> "hc", hid |-> FALSE, tb |-> FALSE, dd |-> NoDescent]
+(* d = [w, hid, bf] *)
+SetColB(B, c, d, s) ==
+  [B EXCEPT !.cols = {x \in @ : x.c # c} \cup {[c |-> c, w |-> d.w, hid |-> d.hid, bf |-> d.bf, sty |-> s]}]
+PlainColDim == [w |-> StdWidth, hid |-> FALSE, bf |-> FALSE]
 (* only the style of a row / column (get_row_dimension_mut(r).set_style(s)): dimensions stay *)
 SetRowStyleB(B, r, s) ==
   LET old == {x \in B.rows : x.r = r}
-  IN IF old = {} THEN SetRowB(B, r, NoHeight, FALSE, s)
+  IN IF old = {} THEN SetRowB(B, r, PlainRowDim, s)
      ELSE [B EXCEPT !.rows = (@ \ old) \cup {[x EXCEPT !.sty = s] : x \in old}]
 SetColStyleB(B, c, s) ==
   LET old == {x \in B.cols : x.c = c}
-  IN IF old = {} THEN SetColB(B, c, StdWidth, FALSE, s)
+  IN IF old = {} THEN SetColB(B, c, PlainColDim, s)
      ELSE [B EXCEPT !.cols = (@ \ old) \cup {[x EXCEPT !.sty = s] : x \in old}]
 (* Worksheet::get_style: the style of the cell, the empty style where there is no cell *)
 StyleAt(B, r, c) == LET m == {x \in B.cells : x.r = r /\ x.c = c} IN IF m = {} THEN EmptyStyle ELSE (CHOOSE x \in m : TRUE).sty
@@ -184,17 +197,20 @@ Sizes(ss) == [fonts |-> Len(ss.fonts), fills |-> Len(ss.fills), borders |-> Len(
               numFmts |-> Len(ss.numFmts), cellXfs |-> Len(ss.xfs), dxfs |-> 0]
 
 (* ---- save ---------------------------------------------------------------------- *)
-(* carriers as uniform items [k, a, b, d, hid, sty]: column group a..b, row a, cell (a, b) *)
-ColItem(x)  == [k |-> "col",  a |-> x.c, b |-> x.c, d |-> x.w,  hid |-> x.hid, sty |-> x.sty]
-RowItem(x)  == [k |-> "row",  a |-> x.r, b |-> 0,   d |-> x.ht, hid |-> x.hid, sty |-> x.sty]
-CellItem(x) == [k |-> "cell", a |-> x.r, b |-> x.c, d |-> "",   hid |-> FALSE, sty |-> x.sty]
-(* Columns::write_to: adjacent columns with equal width, hidden flag and style become one group *)
+(* carriers as uniform items [k, a, b, d, hid, fl, sty]: column group a..b, row a, cell (a, b); d = width / height, *)
+(* fl = the other dimension components (row: customHeight, thickBot, dyDescent; column: bestFit)                  *)
+NoFlags == [ch |-> FALSE, tb |-> FALSE, dd |-> NoDescent, bf |-> FALSE]
+ColItem(x)  == [k |-> "col",  a |-> x.c, b |-> x.c, d |-> x.w,  hid |-> x.hid, fl |-> [NoFlags EXCEPT !.bf = x.bf], sty |-> x.sty]
+RowItem(x)  == [k |-> "row",  a |-> x.r, b |-> 0,   d |-> x.ht, hid |-> x.hid,
+                fl |-> [NoFlags EXCEPT !.ch = x.ch, !.tb = x.tb, !.dd = x.dd], sty |-> x.sty]
+CellItem(x) == [k |-> "cell", a |-> x.r, b |-> x.c, d |-> "",   hid |-> FALSE, fl |-> NoFlags, sty |-> x.sty]
+(* Columns::write_to: adjacent columns with equal width, hidden flag, bestFit and style become one group *)
 RECURSIVE MergeCols(_, _)
 MergeCols(done, todo) ==
   IF todo = <<>> THEN done
   ELSE LET x == Head(todo) IN
        IF done # <<>> /\ done[Len(done)].b + 1 = x.a /\ done[Len(done)].d = x.d
-          /\ done[Len(done)].hid = x.hid /\ done[Len(done)].sty = x.sty
+          /\ done[Len(done)].hid = x.hid /\ done[Len(done)].fl = x.fl /\ done[Len(done)].sty = x.sty
        THEN MergeCols([done EXCEPT ![Len(done)].b = x.b], Tail(todo))
        ELSE MergeCols(Append(done, x), Tail(todo))
 WriteOrder(B) ==
@@ -210,7 +226,7 @@ SaveBook(B, ss, km) ==
   LET items == WriteOrder(B)
       r     == InternAll(ss, items, km, <<>>)
   IN [items |-> [i \in DOMAIN items |-> [k |-> items[i].k, a |-> items[i].a, b |-> items[i].b, d |-> items[i].d,
-                                         hid |-> items[i].hid, sty |-> items[i].sty, x |-> r.xs[i]]],
+                                         hid |-> items[i].hid, fl |-> items[i].fl, sty |-> items[i].sty, x |-> r.xs[i]]],
       ss |-> r.ss]
 
 (* ---- load ---------------------------------------------------------------------- *)
@@ -227,9 +243,10 @@ LoadFile(F, autosolid, nx(_)) ==
       it == F.items
       St(i) == StyleOfIdx(ls, it[i].x)
   IN [book |-> [cells |-> {[r |-> it[i].a, c |-> it[i].b, sty |-> St(i)] : i \in {j \in DOMAIN it : it[j].k = "cell"}},
-                rows  |-> {[r |-> it[i].a, ht |-> it[i].d, hid |-> it[i].hid, sty |-> St(i)] :
+                rows  |-> {[r |-> it[i].a, ht |-> it[i].d, hid |-> it[i].hid, ch |-> it[i].fl.ch, tb |-> it[i].fl.tb,
+                            dd |-> it[i].fl.dd, sty |-> St(i)] :
                               i \in {j \in DOMAIN it : it[j].k = "row"}},
-                cols  |-> UNION {{[c |-> n, w |-> it[i].d, hid |-> it[i].hid, sty |-> St(i)] : n \in it[i].a..it[i].b} :
+                cols  |-> UNION {{[c |-> n, w |-> it[i].d, hid |-> it[i].hid, bf |-> it[i].fl.bf, sty |-> St(i)] : n \in it[i].a..it[i].b} :
                                    i \in {j \in DOMAIN it : it[j].k = "col"}}],
       ss |-> ls]
 Load(F) == LoadFile(F, FALSE, Same)
@@ -252,8 +269,8 @@ SSOK(s) == /\ Len(s.made) = Len(s.xfs) /\ Len(s.fonts) >= 1 /\ s.fonts[1] = Defa
 (*   sizes  table sizes of the files written since the last assignment                           *)
 NewWb == [book |-> EmptyBook, given |-> EmptyBook, ss |-> NewSS, file |-> <<>>, sizes |-> <<>>]
 SetCellW(W, r, c, s)      == [W EXCEPT !.book = SetCellB(@, r, c, s), !.given = SetCellB(@, r, c, s), !.sizes = <<>>]
-SetRowW(W, r, ht, hid, s) == [W EXCEPT !.book = SetRowB(@, r, ht, hid, s), !.given = SetRowB(@, r, ht, hid, s), !.sizes = <<>>]
-SetColW(W, c, w, hid, s)  == [W EXCEPT !.book = SetColB(@, c, w, hid, s), !.given = SetColB(@, c, w, hid, s), !.sizes = <<>>]
+SetRowW(W, r, d, s) == [W EXCEPT !.book = SetRowB(@, r, d, s), !.given = SetRowB(@, r, d, s), !.sizes = <<>>]
+SetColW(W, c, d, s) == [W EXCEPT !.book = SetColB(@, c, d, s), !.given = SetColB(@, c, d, s), !.sizes = <<>>]
 ImportW(W, it, s)         == [W EXCEPT !.book = ImportB(@, it, s), !.given = ImportB(@, it, s), !.sizes = <<>>]
 (* write_writer works on a copy of the stylesheet: the workbook object does not change *)
 SaveW(W, km) == LET F == SaveBook(W.book, W.ss, km) IN [W EXCEPT !.file = <<F>>, !.sizes = Append(@, Sizes(F.ss))]
@@ -265,8 +282,8 @@ vars == <<wbs>>
 Init == wbs = [w \in 1..NBooks |-> NewWb]
 
 SetCell(w, r, c, s)      == wbs' = [wbs EXCEPT ![w] = SetCellW(@, r, c, s)]
-SetRow(w, r, ht, hid, s) == wbs' = [wbs EXCEPT ![w] = SetRowW(@, r, ht, hid, s)]
-SetCol(w, c, x, hid, s)  == wbs' = [wbs EXCEPT ![w] = SetColW(@, c, x, hid, s)]
+SetRow(w, r, d, s) == wbs' = [wbs EXCEPT ![w] = SetRowW(@, r, d, s)]
+SetCol(w, c, d, s) == wbs' = [wbs EXCEPT ![w] = SetColW(@, c, d, s)]
 (* the Style object of cell (it.r2, it.c2) of workbook v is set on a carrier of workbook w *)
 Import(w, v, it)         == wbs' = [wbs EXCEPT ![w] = ImportW(@, it, StyleAt(wbs[v].book, it.r2, it.c2))]
 Save(w)   == wbs' = [wbs EXCEPT ![w] = SaveW(@, KeyMode)]
